@@ -1,5 +1,5 @@
 From Coq Require Extraction ExtrOcamlBasic.
-From PV Require Import Lib.Bytes Model.FsProto Model.FsLinks Spec.CrashSpec.
+From PV Require Import Lib.Bytes Model.FsProto Model.FsLinks Spec.CrashSpec Model.SaveLog.
 
 (* the final world of a run with an optional fault plan *)
 Definition run_plan (s : state) (prog : list action) (plan : option (nat * fault)) : world :=
@@ -13,4 +13,5 @@ Definition lrun_plan (s : state) (prog : list laction) (plan : lplan) : lworld :
 Definition z_of_mode (m : N) : Z := Z.of_N m.
 
 Extraction "C05_model.ml" z_of_mode prog_ops exec check_crashes first_bad tmp_freeb run_plan
-  inplace_ops remove_rename_ops copyback_ops versions foreign_bad lrun_plan l_unnamed_changed.
+  inplace_ops remove_rename_ops copyback_ops versions foreign_bad lrun_plan l_unnamed_changed
+  err_message error_line tech_line.
